@@ -3,3 +3,6 @@ pub mod c03;
 pub mod c05;
 pub mod c12;
 pub mod c04;
+pub mod c06;
+pub mod c07;
+pub mod c15;
